@@ -54,7 +54,7 @@ func (c19) Gen(seed uint64, run int, tier, variant string) interface{} {
 			p.N = r.Intn(301)
 		}
 	}
-	p.Alias = []string{"distinct", "distinct", "allsame", "pairs", "ends", "random", "fewptrs"}[r.Intn(7)]
+	p.Alias = []string{"distinct", "distinct", "allsame", "pairs", "ends", "random", "fewptrs", "copies"}[r.Intn(8)]
 	p.ReprMix = []string{"affine", "mixed", "mixed", "scaled", "flipped"}[r.Intn(5)]
 	p.ElemSeed = r.U64()
 	if r.Chance(30) {
@@ -113,6 +113,15 @@ func (c19) Exec(plan interface{}) Result {
 		}
 		e := ElemFromRef(rp, repr, r.Scalar())
 		objs[i] = &e
+	}
+	if p.Alias == "copies" {
+		// distinct objects holding bit-identical copies of a few values (a, b := c, c)
+		for i := range objs {
+			if i >= 2 && r.Chance(70) {
+				cp := *objs[r.Intn(2)]
+				objs[i] = &cp
+			}
+		}
 	}
 	// pointer list with the aliasing pattern
 	ptrs := make([]*banderwagon.Element, n)
